@@ -647,11 +647,25 @@ def check_C11_runs(world, hist, pred):
             if ea is None:
                 continue
             got = [ev.get("args"), ev.get("kwargs")]
+            if "  " in (ev.get("text") or ""):
+                continue        # two adjacent blanks in the text (an empty or blank-edged cell was substituted
+                                # next to a literal blank): the text has several readings - which neighbouring
+                                # field owns the extra blank (or the item in front of a list) is open
             if _norm(got) != _norm(ea):
                 out.append(V("C11", "args-mismatch", "run:%s" % _matcher(world, e["def"]), scen=sid, idx=i,
                              text=ev.get("text"), received=got, model=ea))
     # a converter fault makes the step an error (never calls the function)
     return out
+
+
+def _strip_strings(x):
+    if isinstance(x, str):
+        return x.strip()
+    if isinstance(x, list):
+        return [_strip_strings(v) for v in x]
+    if isinstance(x, dict):
+        return {k: _strip_strings(v) for k, v in x.items()}
+    return x
 
 
 def _norm(x):
